@@ -30,7 +30,9 @@ CHECKS = {
                  'for F; after each faulted solve the outcome is judged: only ValueError(rank) in start-up/iteration 0, otherwise a dict '
                  "with status 'unknown' (or an answer equal to the fault-free one after a restore / an absorbed fault), s and z strictly "
                  'interior, and accuracy fields recomputed in plain Python from the returned vectors. Exhaustive per instance; '
-                 'instances (conelp, coneqp, lp, qp, socp, sdp, cpl, cp; all five KKT factories and user kktsolvers) are sampled.'),
+                 'instances (conelp, coneqp, lp, qp, socp, sdp, cpl, cp; all five KKT factories and user kktsolvers) are sampled. '
+                 'Each instance is also solved without injected fault under valid but unattainable tolerances (natural numerical breakdown): '
+                 'on the unchanged tree this is not contained - known finding F27 in known_findings.jsonl.'),
         'note': ('Assumes a numerical failure shows as ArithmeticError at the KKT interface or at a LAPACK/CHOLMOD wrapper called from it. '
                  'Trusted: simkit/cone_ref.py and simkit/rescheck.py (plain-Python recomputation), tolerances 1e-6 relative to term magnitudes. '
                  'cholmod and the other SuiteSparse/GLPK/DSDP modules are prebuilt wheel binaries; base/blas/lapack/misc_solvers and all *.py are built from the working tree.'),
@@ -43,7 +45,9 @@ CHECKS = {
                  '(all fields, stdout) with the same call in a pristine forked interpreter; byte images of all arguments and a snapshot of '
                  'all module-level state (Python attributes, and the writable static data of the four C extension modules built from the tree) '
                  'are compared around every call; invalid option values must be rejected with ValueError; iterations <= effective maxiters; '
-                 'reported accuracy satisfies the effective tolerances; nested GLPK/DSDP option dictionaries are part of the option model.'),
+                 'reported accuracy satisfies the effective tolerances; nested GLPK/DSDP option dictionaries are part of the option model; '
+                 'op.solve is exercised on multi-constraint piecewise-linear models rebuilt for every call, with unrelated modelling activity '
+                 '(in-place operators on functions of other variables, objects kept alive) between and during the solves.'),
         'note': ('C calls are atomic w.r.t. Python-visible state (wrappers release the GIL only around Fortran routines on their own buffers) - '
                  'two threads inside GIL-released sections at once cannot be scheduled; C statics are covered by the static-data snapshot instead; '
                  'single-threaded OpenBLAS; sampled schedules and histories - evidence, not proof. GLPK/DSDP back-ends are prebuilt binaries.'),
@@ -54,7 +58,8 @@ CHECKS = {
         'text': ('(a) each KKT factory driven as a stateful server through seeded histories of factor(W_i)/solve/failing-factor (real singular data '
                  'or injected LAPACK/CHOLMOD fault)/second factory on the same data, W built from its definition; residual of the documented block '
                  'system computed in plain Python after every solve, all five solvers cross-checked. (b) a monitoring kktsolver checks every W handed '
-                 'out during whole conelp/coneqp/cpl solves (also under injected failures, i.e. the W restored by cpl): d,di,beta,v,r,rti invariants and W z = W^-T s = lambda.'),
+                 'out during whole conelp/coneqp/cpl solves (also under injected failures, i.e. the W restored by cpl): d,di,beta,v,r,rti invariants and W z = W^-T s = lambda. '
+                 'H is handed over fully symmetric, as a lower triangle, or with junk above the diagonal.'),
         'note': 'cone_ref.py (pure Python) is the trusted reference; thresholds 1e-8/1e-9 relative to operand norms (observed ~1e-15).',
         'technique': 'deterministic simulation of factory call histories with injected factorisation faults; reference-model residual oracle; scaling-invariant monitor at the kktsolver seam',
     },
@@ -69,7 +74,8 @@ CHECKS = {
     'C15': {
         'engine': 'densesim', 'category': 'exploration', 'design_ref': 'DESIGN.md 5.C15',
         'text': ('Seeded histories of in-place and regular operations over a pool of aliased names and memoryviews of dense matrices (i/d/z, incl. 0xn, mx0) '
-                 'against a column-major Python model with exact small-integer data; after every operation every live name is compared with the model; '
+                 'against a column-major Python model with exact small-integer data (operators incl. %, **, block-column construction, matrix(number|matrix, size, tc), '
+                 'elementwise exp/log/sqrt/cos/sin compared with math/cmath); after every operation every live name is compared with the model; '
                  'index lists / index matrices and all other operands must be left unchanged; allocator seam (guard bytes, poison-on-free, electric fence) armed.'),
         'note': 'Fault-free corner; only the history/aliasing dimension of C15 is claimed, the construction/indexing input space is sampled as a by-product. Seam build (-include seam.h).',
         'technique': 'seeded operation-history simulation over aliased references against a reference model, allocator seam as trip-wire, ddmin, exact replay',
@@ -77,7 +83,7 @@ CHECKS = {
     'C16': {
         'engine': 'sparsesim', 'category': 'exploration', 'design_ref': 'DESIGN.md 5.C16',
         'text': ('Seeded histories of mutating operations on sparse matrices (indexed assignment of every index kind, V/size assignment, in-place ops, axpy/gemm/syrk '
-                 'incl. partial=True) mirrored on a dense twin; CCS validity of every live sparse object and equality with the twin after every step; '
+                 'incl. partial=True; general sparse()/spdiag()/spmatrix() construction, elementwise max/min/div/mul) mirrored on a dense twin; CCS validity of every live sparse object and equality with the twin after every step; '
                  'operands (incl. index objects) unchanged; directed operand-reuse scenarios (product, in-place mutation, same product); '
                  'interpreter crashes are verdicts via the operation journal; allocator guard bytes / electric fence armed.'),
         'note': 'Fault-free corner; history dimension; the oracle is the property\'s own definition (dense image), so an error common to dense and sparse code is invisible. Exact small-integer data.',
@@ -86,7 +92,7 @@ CHECKS = {
     'C20': {
         'engine': 'lifesim', 'category': 'exploration', 'design_ref': 'DESIGN.md 5.C20',
         'text': ('Seeded histories of export / write-through / release / owner-drop / gc / resize / copy / pickle (protocols 0-5) / tofile-fromfile through a simulated '
-                 'stream with EOF-at-byte-b, OSError and wrong-type faults / buffer import; model of storage + alias relation checked after every operation; '
+                 'stream with EOF-at-byte-b, OSError and wrong-type faults / buffer import (with size/tc arguments) / structural and in-place mutation of sparse owners; model of storage + alias relation checked after every operation; '
                  'every export must pin its exporter by exactly one reference (reference-count oracle); poison-on-free / electric-fence allocator '
                  'makes a dangling export observable; a crash of the interpreter is a verdict attributed to the journalled operation.'),
         'note': 'Assumes CPython reference counting. 2-D strided/Fortran buffer sources need NumPy, which /venv lacks - out of reach. Seam build.',
